@@ -449,7 +449,10 @@ def _exec_train(plan, ctx):
                     crashed = True
                     bump("died_of_unhandled_injected_error")
                 else:
-                    raise
+                    # no fault was injected and the fresh model could be applied to this data: a training loop that raises
+                    # (e.g. the model starts emitting blocks of another tensor order after its first update) returns no model at all
+                    viol("training_raises", {"error": f"{type(e).__name__}: {str(e)[:300]}", "segment": si, "history": kinds[:]}, f"{site0}/training_raises")
+                    return _result(world, evals, counters, kinds, violations)
             except (FloatingPointError,) as e:
                 bump("discarded_nonfinite")
                 return _result(world, evals, counters, kinds, violations, discarded=True)
